@@ -37,7 +37,7 @@ def mk_type(kind, names):
     if kind == 'Set':
         return Agg('variant', TY, 'Set', [some(arc(Agg('variant', TY, 'Long', [])))], ('element_type',))
     if kind == 'Entity':
-        return Agg('variant', TY, 'Entity', [Opaque('validator::types::EntityKind', 'some entity type')])
+        return Agg('variant', TY, 'Entity', [Agg('variant', 'validator::types::EntityKind', 'Entity', [Opaque('validator::types::EntityLUB', 'some entity type(s)')])])
     if kind == 'Record':
         return Agg('variant', TY, 'Record', [Opaque('validator::types::Attributes', 'attrs'), Opaque('validator::types::OpenTag', 'open')], ('attrs', 'open_attributes'))
     return Agg('variant', TY, 'ExtensionType', [names[kind]], ('name',))
@@ -304,6 +304,12 @@ MORE = [('principal.n == 1', True), ('principal.n == principal.s', False), ('pri
         ('principal.t.offset(duration("1h")) < principal.t', True), ('principal.t < principal.d', False), ('principal.ip.isInRange(principal.d)', False), ('principal.ip.isInRange(ip("10.0.0.0/8"))', True),
         ('principal.f.n == 1', True), ('principal.f.o == 1', False), ('principal.f has o && principal.f.o == 1', True), ('resource.owner.n == 1', True), ('resource.owner has o && principal.o == 1', False),
         ('principal has o && principal.f.o == 1', False), ('principal.f has o && principal.o == 1', False), ('resource.owner has o && resource.owner.o == 1', True), ('principal.f.f.f.n == 1', True),
+        ('if principal is User then (1 + principal.s == 0) else true', False), ('if principal is Doc then (1 + principal.s == 0) else true', None), ('principal is Doc || (1 + principal.s == 0)', False),
+        ('principal is User || (1 + principal.s == 0)', None), ('if 1 == 1 then (1 + principal.s == 0) else true', False), ('if 1 == 2 then true else (1 + principal.s == 0)', False), ('1 == 2 || (1 + principal.s == 0)', False),
+        ('User::"u" == User::"u" && (1 + principal.s == 0)', False), ('if principal == resource then (1 + principal.s == 0) else true', None), ('if principal.f == principal then (1 + principal.s == 0) else true', False),
+        ('if principal.hasTag("k") then (1 + principal.s == 0) else true', False), ('if resource.hasTag("k") then true else (1 + principal.s == 0)', False), ('if principal in Group::"g" then (1 + principal.s == 0) else true', False),
+        ('if principal in resource then true else (1 + principal.s == 0)', False), ('if action in Action::"view" then (1 + principal.s == 0) else true', False), ('if action == Action::"view" then (1 + principal.s == 0) else true', False),
+        ('if principal.ip.isLoopback() then (1 + principal.s == 0) else true', False), ('if principal has n then (1 + principal.s == 0) else true', False), ('if context has n then (1 + principal.s == 0) else true', False),
         ('if principal.b then principal.n else principal.s', False), ('(if principal.b then principal.n else 2) == 1', True), ('(if principal.b then principal.n else principal.s) == 1', False),
         ('(if principal.b then principal else principal.f).n == 1', True), ('(if principal.b then principal else resource) == principal', None), ('principal.n', False), ('principal.b', True)]
 
@@ -350,6 +356,8 @@ def run(ctx):
     ctx.guarded('native battery', lambda: battery(ctx, 'native battery', 'strict validation vs evaluation on operator applications', 'native validate-then-evaluate battery'))
     ctx.bounds += ['operators: !, unary -, isEmpty, <, <=, +, binary -, *, contains, containsAll, containsAny; each operand accepted or rejected by its own typecheck with a type of one of the kinds ' + ', '.join(KINDS)
                    + ' (sets are Set<Long>; entity / record types are opaque; two extension types, one with comparison operators); strict and permissive mode',
+                   'attribute access, has, like, is, ==, hasTag, getTag: the operand(s) as above; what the schema says is free (attribute undeclared or declared with a type of five kinds, required or optional; may_have_attr; tag types empty or not and their '
+                   'least upper bound; entity-type membership and disjointness); the capability of the access is a prior fact or not; operands of == are literals or not, equal or not',
                    'short-circuiting nodes &&, ||, if: every child accepted or rejected with a type of one of these kinds (branches of `if`: Never, True, Bool, Long; thorough: all) and an arbitrary capability set, '
                    'arbitrary prior capability; capability sets pointwise (one arbitrary `has` fact); the least upper bound of the branch types exists or not (free)',
                    f'native battery: {len(battery_cases())} expressions (operator applications over operands of 9 kinds, singleton-boolean short circuits, guarded / unguarded accesses to an optional attribute) x 2 entity stores: '
@@ -359,8 +367,7 @@ def run(ctx):
                         'Type::is_subtype, expect_type, TypecheckAnswer::then_typecheck / map_capability and the decision code are executed from the MIR; the typed-expression builder keeps the annotation it is given; '
                         'enforce_strict_equality is a kind-level stub (types of different kinds are rejected, within a kind either answer); CapabilitySet::{new,union,intersect} are the pointwise set operations; '
                         'least_upper_bound_or_error answers freely',
-                        'NOT decided - most of C03: attribute access and `has` (where capabilities are produced and consumed), `in`, `==`, `like`, `is`, tags, record and set literals, extension calls, '
-                        'schema lookups, request environments, and the composition into whole-policy soundness']
-    return ctx.finish('Solver-decided typing rules of eleven operators (typecheck_unary / typecheck_binary) and of the short-circuiting nodes &&, ||, if (typecheck), executed from the MIR: a node is accepted only if every operand that '
+                        'NOT decided - most of C03: `in`, record and set literals, extension calls, Type::least_upper_bound, the schema lookups (free answers here), request environments, and the composition into whole-policy soundness']
+    return ctx.finish('Solver-decided typing rules of 21 expression node kinds (eleven operators, &&, ||, if, attribute access, has, like, is, ==, hasTag, getTag), typecheck / typecheck_unary / typecheck_binary executed from the MIR: a node is accepted only if every operand that '
                       'can be evaluated was accepted with a type on which the evaluator raises no type error, children are typechecked only under `has` facts that hold when they are evaluated, the facts passed on hold when the node is true, '
                       'the node gets a type containing its values, a rejection with accepted operands is reported, and well-typed operands are accepted. A narrow slice of strict-validation soundness.')
